@@ -19,7 +19,8 @@ def run_to_path(rng, args, inp, state=None, kind="release"):
         stale = bytes(rng.randrange(256) for _ in range(257)) * (3 + len(inp) // 64)
     elif state == "in-place":
         stale = inp
-    out = E.tmpfile(stale, ".out")
+    # the file NAME says nothing about the format: conventional, misleading and no extensions
+    out = E.tmpfile(stale, rng.choice([".out", ".npy", ".sfs", ".txt", ".NPY", ".npy.txt", ""]))
     if state == "absent":
         os.unlink(out)
     if state == "in-place":
